@@ -107,6 +107,32 @@ HISTORY = {
     "C13/G9-m1": ("missed", "user-supplied Hasher in the concurrent hash unit"),
     "C18/G9-m1": ("missed", "entry newwriter (NewWriter with the mechanism in WriterConfig.Dialer)"),
     "C18/G9-m2": ("missed", "two goroutines use one Transport at the same time (two brokers authenticate with one mechanism value) + paced authenticate rounds in the fake"),
+    # round 7
+    "C02/H2-m2": ("missed", "reader bound to any partition of a topic with several partitions, which the broker lists in decreasing order (fakecluster ReversePartitionOrder); neighbours hold decoy records"),
+    "C19/H2-m2": ("missed", "NOT CAUGHT by C19's check (its worlds do not change while they are queried); reported by C12's check (cache-not-updated), whose clause it violates"),
+    "C18/H3-m1": ("missed", "failed SaslAuthenticate rounds answered with a null error message"),
+    "C18/H3-m2": ("missed", "entry readerseek (Reader.SetOffsetAt) with kafka.DefaultDialer pointed at the in-memory network, so that traffic that bypasses the configured Dialer is seen by the broker"),
+    "C05/H5-m2": ("missed", "compacted v1 wrappers whose first record was removed too (refcodec SparseShift)"),
+    "C15/H5-m1": ("missed", "late Next (the generation is joined and synced long before the application asks for it) + rule heartbeats-missing-before-next"),
+    "C15/H5-m2": ("missed", "generations in which the application starts no function"),
+    "C08/H8-m1": ("missed", "NOT CAUGHT by C08's check; reported by C10's check as a data race (awaitBatch vs writeMessages), which is what it is"),
+    "C08/H8-m2": ("missed", "BatchTimeout below one millisecond (wsim BatchTimeoutUs)"),
+    "C12/H8-m1": ("missed", "NOT CAUGHT: refreshes up to 1.5 x MetadataTTL apart; C12 treats a cache that is late by more than TTL + 300 ms but catches up within 10 x TTL + 2 s as inconclusive, because on a shared machine that lateness cannot be told from scheduling delay"),
+    "C12/H8-m2": ("missed", "a group's coordinator moves to a broker that was just added, before the transport has heard of it"),
+    "C09/H9-m1": ("missed", "WriteMessages without messages after Close"),
+    "C09/H9-m2": ("missed", "stall kind metadata-after-create (a CreateTopics round trip waits for the topic to appear while the brokers stop serving metadata)"),
+    "C01/H1-m1": ("missed", "unit TestHugeCall: one call of 66000 messages"),
+    "C01/H1-m2": ("missed", "NOT CAUGHT by C01's check (null against empty keys are not its business); reported by C05's check (produce-null-vs-empty/writer)"),
+    "C20/H1-m2": ("missed", "NOT CAUGHT by C20's check (the record count is covered by the batch checksum, which is exactly what the change stops verifying: C20 records such cases as observations); reported by C05's check (records of a batch whose checksum does not match are surfaced)"),
+    "C04/H4-m1": ("missed", "string lengths around powers of two in the value generator (7..257)"),
+    "C04/H4-m2": ("missed", "aborted-transaction lists in fetch responses (fakecluster Partition.Aborted) + rule conn-resp/fetch/rejected (a well-formed response has to decode)"),
+    "C17/H4-m2": ("missed", "operation ReadBatchLateDeadline + rule late-deadline-not-honoured (a stall inside the record set ends with the deadline set after ReadBatch returned)"),
+    "C06/H6-m1": ("missed", "NOT CAUGHT by C06's check; reported by C16's check (pooled gzip reader put back twice after a bad header: history independence)"),
+    "C06/H6-m2": ("missed", "NOT CAUGHT by C06's check; reported by C12's (filtered-metadata-mismatch) and C19's checks"),
+    "C14/H6-m2": ("missed", "rack names as cloud providers spell them (upper case, trailing blank)"),
+    "C13/H7-m2": ("missed", "keyless messages in the concurrent hash unit (+ panics inside Balance are reported as such)"),
+    "C10/H10-m1": ("missed", "Conn programs against a broker limited to Produce v2, with SetRequiredAcks next to the writes"),
+    "C10/H10-m2": ("missed", "client variant multi-bootstrap (kafka.TCP with two addresses)"),
 }
 
 
